@@ -34,6 +34,9 @@ func ObjModules() map[string]tengo.Object {
 		"errmod":   &tengo.Error{Value: tengo.TrueValue},
 		"mapmod": &tengo.Map{Value: map[string]tengo.Object{"t": tengo.FalseValue, "e": &tengo.Error{Value: tengo.UndefinedValue},
 			"n": &tengo.ImmutableMap{Value: map[string]tengo.Object{"u": tengo.UndefinedValue, "a": &tengo.Array{Value: []tengo.Object{tengo.TrueValue}}}}}},
+		// two different host tables without a module name
+		"immamod": &tengo.ImmutableMap{Value: map[string]tengo.Object{"who": &tengo.String{Value: "A"}}},
+		"immbmod": &tengo.ImmutableMap{Value: map[string]tengo.Object{"who": &tengo.String{Value: "B"}}},
 		"bytesmod": &tengo.Bytes{Value: []byte("a\x00\xff")},
 		"timemod":  &tengo.Time{Value: time.Unix(1, 5).UTC()},
 		"charmod":  &tengo.Char{Value: 0x1F600},
